@@ -221,7 +221,11 @@ func prepare(race, helper bool) (worker string, instrStats string) {
 		infra("mktemp: %v", err)
 	}
 	tree := filepath.Join(scratch, "tree")
-	if out, err := run("", nil, "rsync", "-a", "--exclude", ".git", "--exclude", "/images", "/repo/", tree+"/"); err != nil {
+	src := "/repo"
+	if v := os.Getenv("MXSIM_REPO"); v != "" {
+		src = v // development only: registered checks always use /repo
+	}
+	if out, err := run("", nil, "rsync", "-a", "--exclude", ".git", "--exclude", "/images", src+"/", tree+"/"); err != nil {
 		infra("rsync: %v\n%s", err, out)
 	}
 	os.MkdirAll(filepath.Join(tree, "utils/simrt"), 0755)
